@@ -21,4 +21,18 @@ PROPS = {
             "text shorter than 2^32 bytes (TextSize is u32)",
         ],
     },
+    "C17": {
+        "lean_modules": ["CapyV.Props.C17"],
+        "level": "proof",
+        "trusted_base": TB_COMMON + [
+            "hook codegen::verif::layouts (calls calc_layouts and the GetLayoutInfo accessors unchanged)",
+            "layout arithmetic modelled in Nat; the code uses u32 (stride_rounds_up carries the explicit no-overflow hypothesis size+align-1 < 2^32)",
+            "well-formedness guard wf/okPw: integer widths {0,8,16,32,64,128,255}, float widths {0,32,64}, pointer widths {16,32,64} — the only ones the front end / Cranelift produce",
+            "host gcc (thorough tier only) as the oracle for C struct offsets",
+        ],
+        "assumptions": [
+            "types are well-formed (widths as above)",
+            "the process-wide LAYOUTS table is used with a single pointer width per process (switching widths panics in calc_layouts; reachable only by compiling for two targets in one process, which the CLI never does)",
+        ],
+    },
 }
